@@ -41,13 +41,13 @@ def TT.validate : TT → CV → Except Exc CV
 /-- The `Env` a `TraitListObject` of trait `List(inner, …)` runs with: its item
 validator is the inner trait's `validate`; `==` and the sort permutation stay
 parameters. -/
-def TT.env (inner : TT) (eq : CV → CV → Bool) (sort : List CV → List CV) : Env CV :=
+def TT.env (inner : TT) (eq : CV → CV → Bool) (sort : Nat → List CV → List CV) : Env CV :=
   { v := fun _ x => inner.validate x, eq := eq, sort := sort }
 
 /-- Apply a mutator to the list found by following `path` from a value of
 trait type `tt`; every enclosing list is left alone (in Python the inner
 `TraitListObject` is mutated in place). `none` = the path does not lead to a list. -/
-def stepAt (eq : CV → CV → Bool) (sort : List CV → List CV) :
+def stepAt (eq : CV → CV → Bool) (sort : Nat → List CV → List CV) :
     TT → List Nat → Op CV → CV → Option (Except Exc CV)
   | .list c inner, [], op, .lst xs =>
     some ((TraitListObject.step c (inner.env eq sort) xs op).map (fun o => .lst o.items))
